@@ -480,4 +480,94 @@ Proof.
   cbn [map map_rs]. rewrite leaf_of_selem by exact Wl. cbn [rbind]. rewrite IH. reflexivity.
 Qed.
 
+(* ---- whole file: scan, decode ------------------------------------------------------------------------------ *)
+Definition lfile_wf (f : lfile) : Prop :=
+  Forall leaf_wf (l_leaves f) /\ Forall (rg_ok (l_leaves f)) (l_rgs f) /\ footer_ok f.
+
+Definition file_out_of (f : lfile) : file_out :=
+  {| fo_len := lenN (enc_file compress f); fo_fstart := 4 + lenN (file_data f); fo_flen := lenN (file_footer f);
+     fo_meta := file_meta f; fo_leaves := map leaf_of_l (l_leaves f); fo_rgs := rgs_out (l_leaves f) (l_rgs f) 4 |}.
+
+Theorem scan_file_roundtrip strict f : lfile_wf f ->
+  scan_file decompress strict (enc_file compress f) = ROk (file_out_of f).
+Proof.
+  intros (LW & RW & FW). unfold scan_file. rewrite parse_footer_roundtrip by exact FW. cbn [rbind].
+  unfold file_meta at 1. cbn [fm_schema]. rewrite leaves_of_schema by exact LW. cbn [rbind].
+  unfold file_meta at 1. cbn [fm_rgs].
+  pose proof (enc_rgs_pos (l_leaves f) (l_rgs f) 4) as P.
+  rewrite (scan_rgs_roundtrip strict (4 + lenN (file_data f)) (l_leaves f) (l_rgs f) 4 (enc_file compress f) magic
+             (file_footer f ++ le_enc 4 (lenN (file_footer f)) ++ magic) RW).
+  - reflexivity.
+  - rewrite enc_file_eq. reflexivity.
+  - reflexivity.
+  - lia.
+  - unfold file_data. lia.
+Qed.
+
+Definition chunk_cells (l : lleaf) (c : lchunk) : list (option value) := concat (map content_cells (contents_of l c)).
+
+Lemma cols_out_cells : forall ls cs pos,
+  map_rs cells_here (cols_out ls cs pos) = ROk (map (fun lc => chunk_cells (fst lc) (snd lc)) (combine ls cs)).
+Proof.
+  induction ls as [|l ls IH]; intros cs pos; [reflexivity|]. destruct cs as [|c cs]; [reflexivity|].
+  cbn [cols_out map_rs combine map chunk_out cells_here co_cells rbind fst snd]. rewrite IH. reflexivity.
+Qed.
+
+Definition file_cells (f : lfile) : list (list (list (option value))) :=
+  map (fun cs => map (fun lc => chunk_cells (fst lc) (snd lc)) (combine (l_leaves f) cs)) (l_rgs f).
+
+Lemma rgs_out_cells ls : forall rgs pos,
+  map_rs (fun rc : rgroup * list chunk_res => map_rs cells_here (snd rc)) (rgs_out ls rgs pos)
+  = ROk (map (fun cs => map (fun lc => chunk_cells (fst lc) (snd lc)) (combine ls cs)) rgs).
+Proof.
+  induction rgs as [|cs r IH]; intros pos; [reflexivity|].
+  cbn [rgs_out map_rs map snd]. rewrite cols_out_cells. cbn [rbind]. rewrite IH. reflexivity.
+Qed.
+
+Theorem dec_file_roundtrip strict f : lfile_wf f ->
+  dec_file decompress strict (enc_file compress f) = ROk (map leaf_of_l (l_leaves f), file_cells f).
+Proof.
+  intros W. unfold dec_file. rewrite scan_file_roundtrip by exact W. cbn [rbind file_out_of fo_rgs fo_leaves].
+  rewrite rgs_out_cells. reflexivity.
+Qed.
+
+(* the decoded cells are the denotation table_of *)
+Lemma items_cells_contents cd : forall its dict contents,
+  items_contents cd dict its = Some contents -> items_cells cd dict its = Some (concat (map content_cells contents)).
+Proof.
+  induction its as [|it r IH]; intros dict contents H; cbn [items_contents] in H.
+  - injection H as <-. reflexivity.
+  - destruct (item_content cd dict it) as [c|] eqn:IC; [|discriminate].
+    destruct (items_contents cd (next_dict dict c) r) as [cr|] eqn:ICr; [|discriminate].
+    cbn [option_map] in H. injection H as <-.
+    destruct it as [e vs|p]; cbn [item_content] in IC.
+    + injection IC as <-. cbn [items_cells next_dict] in *. rewrite (IH _ _ ICr). reflexivity.
+    + destruct (page_cells cd dict p) as [cs|] eqn:PC; [|discriminate]. injection IC as <-.
+      cbn [items_cells next_dict] in *. rewrite PC, (IH _ _ ICr), app_tr_ok. reflexivity.
+Qed.
+
+Lemma map2_opt_cells : forall ls cs, Forall2 chunk_ok ls cs ->
+  map2_opt (fun l c => items_cells (desc_of l) None (lc_items c)) ls cs
+  = Some (map (fun lc => chunk_cells (fst lc) (snd lc)) (combine ls cs)).
+Proof.
+  induction 1 as [|l c ls cs [_ [contents IC]] _ IH]; [reflexivity|].
+  cbn [map2_opt combine map fst snd]. rewrite (items_cells_contents _ _ _ _ IC), IH.
+  unfold chunk_cells, contents_of. now rewrite IC.
+Qed.
+
+Theorem table_of_cells f : lfile_wf f -> table_of f = Some (map leaf_of_l (l_leaves f), file_cells f).
+Proof.
+  intros (_ & RW & _). unfold table_of, file_cells.
+  assert (E : map_opt (fun rg => map2_opt (fun l c => items_cells (desc_of l) None (lc_items c)) (l_leaves f) rg) (l_rgs f)
+              = Some (map (fun cs => map (fun lc => chunk_cells (fst lc) (snd lc)) (combine (l_leaves f) cs)) (l_rgs f))).
+  { induction RW as [|cs r [_ F2] _ IH]; [reflexivity|]. cbn [map_opt map]. now rewrite (map2_opt_cells _ _ F2), IH. }
+  now rewrite E.
+Qed.
+
+(* spec_roundtrip, decoding half: for every well-formed laid-out file the specification decoder
+   returns the table the layout denotes *)
+Theorem spec_roundtrip_dec strict f t : lfile_wf f -> table_of f = Some t ->
+  dec_file decompress strict (enc_file compress f) = ROk t.
+Proof. intros W T. rewrite table_of_cells in T by exact W. injection T as <-. now apply dec_file_roundtrip. Qed.
+
 End WithCodecs4.
